@@ -319,7 +319,9 @@ def legacy (s : State) (signer creator : Addr) : State × Res :=
   | none => (s, .ok)
   | some fg => ({ s with clients := s.clients ++ legacyNew fg s.lics s.clients s.grants }, .ok)
 
-/-- x/bank `MsgSend`; `to = none` is a blocked (module) address -/
+/-- x/bank `MsgSend`; `to = none` is a blocked (module) address.  This and `create` / `sale` / `gift` are the only
+debits in the op alphabet: staking (delegate / undelegate), fees, deposits and bridge transfers are NOT modelled
+(see the EXCLUSION note of `locked_enforced` in Props/C18.lean). -/
 def send (s : State) (src : Addr) (dst : Option Addr) (d : Denom) (amt : Int) (now : Nat) : State × Res :=
   if s.acct src = .none then (s, .rejected) else
   if amt ≤ 0 ∨ denomValid d = false then (s, .rejected) else
@@ -330,7 +332,9 @@ def send (s : State) (src : Addr) (dst : Option Addr) (d : Denom) (amt : Int) (n
     (touchAcct { s with bal := upd2 (upd2 s.bal src d (s.bal src d - amt.toNat)) t d
                                (upd2 s.bal src d (s.bal src d - amt.toNat) t d + amt.toNat) } t, .ok)
 
-/-- x/feegrant `MsgGrantAllowance` -/
+/-- x/feegrant `MsgGrantAllowance`.  The granter IS the signer (x/auth verifies the granter's signature), so the
+operation carries no separate signer.  The model has no `MsgRevokeAllowance` and no allowance expiry: the grant
+table only grows (the harness never revokes). -/
 def grant (s : State) (granter grantee : Addr) : State × Res :=
   if s.acct granter = .none then (s, .rejected) else
   if granter = grantee then (s, .rejected) else
@@ -379,7 +383,9 @@ def step (s : State) : Op → State × Res
   | .setFunders l => ({ s with funders := some l }, .ok)
   | .setContracts l => ({ s with contracts := contractTable l }, .ok)
 
-/-- the block time an operation is executed at (`none`: the operation reads no clock and debits nobody) -/
+/-- the block time an operation is executed at (`none`: the operation reads no clock and debits nobody).
+Block times are INPUTS of the operations: `run` accepts any sequence of time stamps, also non-monotone ones; the
+theorems of Props/C18.lean hold for all of them and hence for the non-decreasing block times of a chain. -/
 def Op.time : Op → Option Nat
   | .create _ _ _ _ _ _ now => some now
   | .sale _ _ _ _ now => some now
